@@ -3,22 +3,31 @@
 EXTENDS UnitKinetics
 
 NoPlan == <<>>
+\* registries whose entries are scaled quantities (number * unit)
+KFac(l, m, t, c, th, n) == [length |-> l, mass |-> m, time |-> t, current |-> c, temperature |-> th, amount |-> n]
+KQ1 == ZeroScale
+KRegsScaled == {
+    [length |-> "m", mass |-> "kg", time |-> "s", current |-> "A", temperature |-> "K", amount |-> "mol",
+     factors |-> KFac(S(-1, 0, -1, 0, 0), S(-3, 0, -3, 0, 0), S(2, 1, 1, 0, 0), KQ1, KQ1, S(-6, 0, -6, 0, 0))],
+    [length |-> "cm", mass |-> "g", time |-> "min", current |-> "mA", temperature |-> "K", amount |-> "mmol",
+     factors |-> KFac(S(1, 0, 1, 0, 0), KQ1, S(-2, -1, -1, 0, 0), S(3, 0, 3, 0, 0), KQ1, S(-3, 0, -3, 0, 0))] }
 KRegs108 == { [length |-> l, mass |-> m, time |-> t, current |-> c, temperature |-> "K", amount |-> a] :
               l \in {"m", "cm", "dm"}, m \in {"kg", "g"}, t \in {"s", "min", "ms"}, c \in {"A", "mA"},
               a \in {"mol", "mmol", "umol"} }
 \* mass and current do not enter any kinetic unit: 27 registries differ in what matters
 KRegs27 == { r \in KRegs108 : r.mass = "g" /\ r.current = "mA" }
 KRegSI == [length |-> "m", mass |-> "kg", time |-> "s", current |-> "A", temperature |-> "K", amount |-> "mol"]
-KRegs6 == {KRegSI} \cup { [length |-> l, mass |-> "g", time |-> t, current |-> "A", temperature |-> "K", amount |-> a] :
+KRegs6 == KRegsScaled \cup {KRegSI} \cup { [length |-> l, mass |-> "g", time |-> t, current |-> "A", temperature |-> "K", amount |-> a] :
                          <<l, t, a>> \in {<<"cm", "min", "mmol">>, <<"dm", "ms", "umol">>, <<"m", "min", "umol">>,
-                                          <<"cm", "s", "mol">>, <<"dm", "s", "mmol">>} }
-ASSUME \A r \in KRegs108 : IsReg(r)
+                                          <<"cm", "s", "mol">>} }
+ASSUME \A r \in KRegs108 \cup KRegsScaled : IsReg(r)
 
 Outs_one == {<<"uM", "h">>}
 Outs_three == {<<"uM", "h">>, <<"molcm3", "ms">>, <<"M", "s">>}
 Plans_two == {0, 2}
 Plans_all == {0, 1, 2, 3, 4}
 Sys_all == DOMAIN SysLib
+Sys_laws == {"uni", "bi", "dimer", "ter", "chain", "mix"}
 Sys_q == {"zero", "uni", "bi", "ter", "chain", "zero2", "mix", "feed"}
 Eq_all == {"uni", "bi", "ter", "dimer", "zero", "zeroB", "tri", "terBCD"}
 W_all == AllWrongs
@@ -31,5 +40,5 @@ KT_two == {"min", "ms"}
 Calls_all == AllCallKinds
 Calls_none == {}
 KRegs2 == {KRegSI, [length |-> "dm", mass |-> "g", time |-> "ms", current |-> "A", temperature |-> "K", amount |-> "umol"]}
-KRegs3 == KRegs2 \cup {[length |-> "cm", mass |-> "g", time |-> "min", current |-> "A", temperature |-> "K", amount |-> "mmol"]}
+KRegs3 == KRegsScaled \cup KRegs2 \cup {[length |-> "cm", mass |-> "g", time |-> "min", current |-> "A", temperature |-> "K", amount |-> "mmol"]}
 =============================================================================
